@@ -93,6 +93,8 @@ class _Hole(SerializableType):
         return hash((type(self).__name__, repr(self.v)))
     def __repr__(self):
         return f"{type(self).__name__}({self.v!r})"
+    def __bool__(self):
+        return bool(self.v)
     def _serialize(self):
         return {"hole": type(self).__name__, "v": self.v}
     @classmethod
@@ -122,6 +124,9 @@ def _default_src(f: PF):
     if f.default in ("value", "factory"):
         return {"Hs": f"{h}(7)", "OptHs": f"{h}(7)", "Any": "'dflt'", "int": "7", "float": "7.5",
                 "Hd": f"In_{f.name}(7)", "OptHd": f"In_{f.name}(7)"}[f.ann]
+    if f.default == "falsy":
+        # falsy but not None: omit_default compares with ==, the explicit-None branch must not treat it as None
+        return {"Hs": f"{h}(0)", "OptHs": f"{h}(0)", "Any": "''", "int": "0", "float": "0.0"}[f.ann]
     raise ValueError(f.default)
 
 
@@ -759,7 +764,8 @@ FS_A = (PF("a", "Hs", "MISSING", "meta"), PF("b", "OptHs", "MISSING"), PF("c", "
 FS_B = (PF("k", "Any", "MISSING"), PF("e", "Any", "None", "config"), PF("f", "float", "nan"), PF("g", "int", "value", "-", True), PF("h", "OptHs", "value", "meta"))
 FS_C = (PF("z", "int", "MISSING"), PF("n", "Hd", "MISSING", "-", False, ("N", "B")), PF("m", "OptHd", "None", "meta", False, ("N",)), PF("y", "Hs", "factory", "meta"))
 FS_D = (PF("n", "Hd", "MISSING", "-", False, ()), PF("m", "OptHd", "None", "-", False, ("B", "D", "X")), PF("a", "int", "value", "meta"))
-FIELDSETS = (FS_A, FS_B, FS_C, FS_D)
+FS_E = (PF("p", "OptHs", "falsy"), PF("q", "Any", "falsy", "meta"), PF("r", "int", "falsy"))
+FIELDSETS = (FS_A, FS_B, FS_C, FS_D, FS_E)
 
 
 def lattice(tier):
@@ -776,7 +782,7 @@ def lattice(tier):
                     if len(oo) != len(o):
                         continue
                     flags = ("D",) if any(x[0] == "call" for x in oo) else ()
-                    fsets = (FS_A, FS_B) if tier == "quick" else FIELDSETS
+                    fsets = ((FS_A, FS_B, FS_E) if opt == "omit_default" else (FS_A, FS_B)) if tier == "quick" else FIELDSETS
                     for fs in fsets:
                         pts.append(PPoint(fs, oo, False, flags, base))
                         if tier == "thorough" or opt != "omit_default":
@@ -793,7 +799,7 @@ def lattice(tier):
         o = tuple(("cfg", n, v) for n, v in zip(OPTS, vals) if v is not None)
         for flags in flagsets:
             for sk in (False, True):
-                fsets = FIELDSETS if tier == "thorough" else (FS_A, FS_B, FS_C)
+                fsets = FIELDSETS if tier == "thorough" else (FS_A, FS_B, FS_C, FS_E)
                 for fs in fsets:
                     if tier == "quick" and sk and fs is FS_C:
                         continue
